@@ -273,6 +273,21 @@ func (w *World) importedPkg(from *types.Package, name string) *types.Package {
 	if from == nil {
 		return nil
 	}
+	// import aliases of the package's source files (acpTypes "…/acp/types")
+	if pp := w.tpkgs[from.Path()]; pp != nil {
+		for _, f := range pp.Syntax {
+			for _, is := range f.Imports {
+				if is.Name != nil && is.Name.Name == name {
+					path := strings.Trim(is.Path.Value, "\"")
+					for _, p := range from.Imports() {
+						if p.Path() == path {
+							return p
+						}
+					}
+				}
+			}
+		}
+	}
 	for _, p := range from.Imports() {
 		if p.Name() == name {
 			return p
